@@ -49,7 +49,7 @@ type expect struct {
 
 func TestHistories(t *testing.T) {
 	cat := hx.Catalogue()
-	ev.Check(t, "TestHistories", ev.Pick(1500, 200000), func(t *rapid.T) {
+	ev.Check(t, "TestHistories", ev.PickN(1500, 200000), func(t *rapid.T) {
 		suite := rapid.SampledFrom(hx.Suites9()).Draw(t, "suite")
 		c := hx.Creds{User: rapid.SampledFrom([]string{"", "admin", "0123456789abcdef"}).Draw(t, "user"), Password: []byte("pw"), Priv: 4, Suite: suite, Seed: rapid.Uint64().Draw(t, "seed")}
 		w := hx.NewWorldFor(c, true)
